@@ -7,6 +7,8 @@
 package c11
 
 import (
+	"bytes"
+	"context"
 	"encoding/hex"
 	"encoding/json"
 	"fmt"
@@ -262,11 +264,26 @@ func child(mode string, in json.RawMessage) any {
 	gr.Steps = nSteps
 	feats := wrun.Features(cfg)
 	var cache wazero.CompilationCache
+	// own PRNG stream for the dimensions added later (the older ones keep their values)
+	r2 := core.NewRng(int64(gc.Seed), 41)
+	// memories allocated with their maximum as capacity (a grow then re-slices instead of reallocating): whatever an
+	// earlier, unrelated instance left in a recycled or over-allocated buffer must not show up in grown pages
+	capFromMax := r2.Chance(1, 2)
+	// predecessors: unrelated instances of the same programs that grow their memory to the maximum, fill it with a
+	// pattern and are closed before the group's instances exist (the lone replays have no predecessors)
+	predecessors := r2.Chance(1, 2)
+	gr.Shape += fmt.Sprintf(",capfrommax=%v,predecessors=%v", capFromMax, predecessors)
 	mkOpt := func() wrun.Options {
 		o := wrun.Options{Compiler: compiler}
-		if cache != nil {
-			cc := cache
-			o.RuntimeConfig = func(rc wazero.RuntimeConfig) wazero.RuntimeConfig { return rc.WithCompilationCache(cc) }
+		cc := cache
+		o.RuntimeConfig = func(rc wazero.RuntimeConfig) wazero.RuntimeConfig {
+			if cc != nil {
+				rc = rc.WithCompilationCache(cc)
+			}
+			if capFromMax {
+				rc = rc.WithMemoryCapacityFromMax(true)
+			}
+			return rc
 		}
 		return o
 	}
@@ -278,6 +295,29 @@ func child(mode string, in json.RawMessage) any {
 	sessions := []*wrun.Session{wrun.NewSession(mkOpt(), feats)}
 	if sharedCacheRuntimes {
 		sessions = append(sessions, wrun.NewSession(mkOpt(), feats))
+	}
+	if predecessors {
+		pat := bytes.Repeat([]byte{0xa5, 0x5a, 0xc3, 0x3c}, 65536/4)
+		for si, s := range sessions {
+			for pi, p := range progs {
+				pre := s.Instantiate(p, fmt.Sprintf("pre%d_%d", si, pi))
+				if pre.Mod == nil {
+					continue
+				}
+				if m := pre.Mod.Memory(); m != nil {
+					if max, ok := m.Definition().Max(); ok && max <= 64 {
+						if cur := m.Size() / 65536; max > cur {
+							m.Grow(max - cur)
+						}
+					}
+					for off := uint32(0); off+65536 <= m.Size() && off < 64*65536; off += 65536 {
+						m.Write(off, pat)
+					}
+					gr.Ops["predecessor-dirtied-pages"] += int(m.Size() / 65536)
+				}
+				pre.Mod.Close(context.Background())
+			}
+		}
 	}
 	insts := make([]*wrun.Inst, nInst)
 	for i := range insts {
@@ -315,7 +355,7 @@ func child(mode string, in json.RawMessage) any {
 	cache = nil
 	// ---- lone replays ----
 	for i := range insts {
-		s := wrun.NewSession(wrun.Options{Compiler: compiler}, feats)
+		s := wrun.NewSession(mkOpt(), feats)
 		lone := s.Instantiate(progs[instProg[i]], fmt.Sprintf("inst%d", i))
 		for si, ms := range script {
 			if ms.inst == i {
